@@ -159,7 +159,7 @@ PROPS.update({
 PROPS["C18"] = {
     "modules": ["TurnModel.Props.C18"], "gen": True,
     "harnesses": ["H9", "H4", "H11", "H5", "H12"], "view": ["slowcb", "trace"], "outs": None,
-    "alarms": ["data-path-blocked-by-callback", "bound-connection-closed-by-bind-timer", "state-attached-to-dead-allocation", "h12-setup", "liveness-lost", "allocation-left", "txn-completion-race", "harness-died", "data-race", "concurrent-writers-mixed", "h11-setup", "manager-blocked-by-dial", "h9-setup", "server-wedged", "allocation-vanished-after-success", "concurrent-first-write-closes-allocation", "accept-blocked-after-close", "accept-deadline-not-sticky", "inbound-blocks", "h5-setup"],
+    "alarms": ["data-path-blocked-by-callback", "bound-connection-closed-by-bind-timer", "state-attached-to-dead-allocation", "h12-setup", "liveness-lost", "allocation-left", "txn-completion-race", "harness-died", "data-race", "concurrent-writers-mixed", "h11-setup", "manager-blocked-by-dial", "h9-setup", "server-wedged", "allocation-vanished-after-success", "concurrent-first-write-closes-allocation", "accept-blocked-after-close", "accept-deadline-not-sticky", "inbound-blocks", "h5-setup", "half-initialised-allocation-published", "lock-held-on-return"],
     "rule": "regenerated obligations: xlate re-emits the lock skeleton of every function/closure touching a sync mutex (63 units, 26 lock ids), the call/guard "
             "skeleton of the request handlers and the AddPermission ordering facts from /repo's working tree on every run; the kernel re-checks balanced/guarded "
             "by decide; the translator also derives, over the static call graph, which mutexes each function may take (callee summaries) and the kernel re-checks that the resulting lock-order graph (mutex held -> mutex taken, over every path, through calls) is acyclic (lock_order_acyclic). Failing-input search / supporting run: H9 makes each lifecycle callback slow (1 s / 4 s virtual) and tears the allocation down during it by "
